@@ -5,6 +5,7 @@
   buffer at exactly this range" is a statement about `buf`, `start` and `stop`.
 -/
 import ElfVerif.Lemmas.NoPanic
+import ElfVerif.Props.C14
 namespace Elf.C03
 
 /-- The window `[a, a+n)` of the file. -/
@@ -157,5 +158,49 @@ theorem strtab_entry_provenance (t : Slice) (off : Nat) (w : Slice) (h : strGetR
 
 /- Non-vacuity: a 64-byte ELF64 header followed by data; section [70, 74) of an 80-byte file. -/
 example : (fileRange ⟨default, Slice.ofArray (Array.replicate 80 0), none, none⟩ 70 4).len = 4 := by decide
+
+/-! ### notes: names, descriptors and build-ids are windows of the section / segment bytes -/
+
+/-- **The name and descriptor of the record at `off` are exactly the ABI-designated sub-windows of the
+    note section's (or segment's) window `d`** — same buffer, `name = [off+12, off+12+namesz)`,
+    `desc = [pad(off+12+namesz), … + descsz)`, both inside `d`; never a copy, never clamped. -/
+theorem note_windows (le : Bool) (align : Nat) (d : Slice) (off ntype : Nat) (name desc : Slice) (nx : Nat)
+    (h : C14.recordAt le align d off = some (ntype, name, desc, nx)) :
+    let namesz := decode le d off 4
+    let descsz := decode le d (off + 4) 4
+    let descStart := C14.padUp align (off + 12 + namesz)
+    name = ⟨d.buf, d.start + (off + 12), d.start + (off + 12 + namesz)⟩ ∧
+    desc = ⟨d.buf, d.start + descStart, d.start + (descStart + descsz)⟩ ∧
+    off + 12 + namesz ≤ d.len ∧ descStart + descsz ≤ d.len ∧ ntype = decode le d (off + 8) 4 := by
+  unfold C14.recordAt at h
+  split at h
+  · dsimp only at h
+    split at h
+    · rename_i hc
+      injection h with h
+      simp only [Prod.mk.injEq] at h
+      obtain ⟨h1, h2, h3, _⟩ := h
+      exact ⟨h2.symm, h3.symm, hc.1, hc.2.1, h1.symm⟩
+    · cases h
+  · cases h
+
+/-- the typed reading hands out those very windows: a build-id is the descriptor window, an untyped
+    note carries the name and descriptor windows, an ABI tag is the four words decoded from the
+    descriptor window -/
+theorem typed_note_windows (le : Bool) (cls : Class) (ntype : Nat) (name desc : Slice) (n : Note)
+    (h : C14.typeNote le cls ntype name desc = .ok n) :
+    n = .gnuBuildId desc ∨ n = .unknown ntype name desc ∨
+    ∃ t, n = .gnuAbiTag t ∧ (NoteGnuAbiTag.ep.parse le cls desc 0).1 = .ok t := by
+  unfold C14.typeNote at h
+  split at h
+  · split at h
+    · cases hp : (NoteGnuAbiTag.ep.parse le cls desc 0).1 with
+      | ok t => rw [hp] at h; injection h with h; exact Or.inr (Or.inr ⟨t, h.symm, rfl⟩)
+      | err e => rw [hp] at h; cases h
+      | panic => rw [hp] at h; cases h
+    · split at h
+      · injection h with h; exact Or.inl h.symm
+      · injection h with h; exact Or.inr (Or.inl h.symm)
+  · injection h with h; exact Or.inr (Or.inl h.symm)
 
 end Elf.C03
